@@ -15,6 +15,8 @@ import RV.Base.Proto
     ncname S                             -> nc 0|1                          (is_ncname, stateless)
     catrange lo hi                       -> cats <name>*<count> …           (unicodedata.category over lo ≤ c < hi, run-length encoded)
     serdoc m fb U g U g …                   -> doc <d>n …> (document prefix table), then reset m
+    sertrig fb m U g U g … / m U g …        -> doc <d>n …> (TriG: contexts separated by `/`, each with its manager), then reset both
+    minit m cc | minit m <anything else>    -> err Other | err ValueError (no manager is created)
 
   Output of every operation:  `<out>|L <p>n sorted>|P <p>n lookups>|N <n>p lookups>`
   with strings printed raw, None as `~`.
@@ -38,7 +40,7 @@ def bool? (w : String) : Option Bool :=
 
 def bset? (w : String) : Option BindSet :=
   if w = "none" then some .none else if w = "core" then some .core
-  else if w = "rdflib" then some .rdflib else none
+  else if w = "rdflib" then some .rdflib else if w = "cc" then some .cc else some .unknown
 
 def raw (s : Str) : String := String.mk (s.map Char.ofNat)
 def rawO : Option Str → String
@@ -83,6 +85,14 @@ def ugs? : List String → Option (List (Str × Bool))
     let u ← str? u; let g ← bool? g; let r ← ugs? r
     pure ((u, g) :: r)
 
+/-- split a word list at the words `/` -/
+def splitSlash : List String → List (List String)
+  | [] => []
+  | ws =>
+    let go := ws.foldr (fun w (acc : List String × List (List String)) =>
+      if w = "/" then ([], acc.1 :: acc.2) else (w :: acc.1, acc.2)) ([], [])
+    go.1 :: go.2
+
 def parseOp : List String → Option Op
   | ["minit", m, b] => do pure (.minit (← bool? m) (← bset? b))
   | ["bind", m, p, n, ov, rp] => do pure (.bind (← bool? m) (← ostr? p) (← str? n) (← bool? ov) (← bool? rp))
@@ -102,6 +112,11 @@ def parseOp : List String → Option Op
     pure (.parse (← bool? m) ps)
   | "parsexml" :: m :: r => do pure (.parsexml (← bool? m) (← pairs? r))
   | "serdoc" :: m :: fb :: r => do pure (.serdoc (← bool? m) (← bool? fb) (← ugs? r))
+  | "sertrig" :: fb :: r => do
+    let cs ← (splitSlash r).mapM (fun c => match c with
+      | m :: ugs => do pure ((← bool? m), (← ugs? ugs))
+      | [] => none)
+    pure (.sertrig (← bool? fb) cs)
   | _ => none
 
 /-- run-length encoding of `category` over `lo, lo+1, …` (`n` code points) -/
